@@ -360,6 +360,10 @@ class G:
             params = []
             if r.random() < 0.4:
                 params = ["p"] if r.random() < 0.7 else ["p", "q"]
+                if r.random() < 0.1:
+                    # a parameter named like one of the interpreter's own StartFlow arguments
+                    params[-1] = r.choice(["activated", "flow_id", "source_head_uid"])
+                    self.feats.add("param-internal-name")
             defaults = {}
             if params and r.random() < 0.3:
                 defaults[params[-1]] = r.choice(VALS)
